@@ -10,24 +10,29 @@ HARNESSES = []
 def add(name, entry, encoded, tiers, **kw):
     h = dict(COMMON); h.update(name=name, entry=entry, encoded=encoded, tiers=tiers); h.update(kw); HARNESSES.append(h)
 for f in (0, 1, 2):
-    add("cursor_abstract_" + FN[f], "h_cursor_abstract", PRN[f] + ["hwloc_snprintf"],
-        {"quick": {"defines": {"FMT": f, "ABSTRACT_PIECES": 1, "NW": 1, "CAP": 32, "R": 5}, "unwind": 36, "unwindset": {"hwloc_snprintf.0": 2},
-                   "bounds": "1-word bitmaps (+tail), buffer length 0..32, <= 12 pieces of 0..5 characters each (abstract vsnprintf contract), symbolic canary"},
-         "thorough": {"defines": {"FMT": f, "ABSTRACT_PIECES": 1, "NW": 2, "CAP": 40, "R": 6}, "unwind": 44, "unwindset": {"hwloc_snprintf.0": 2},
+    add("cursor_abstract_" + FN[f], "h_cursor_abstract", PRN[f],
+        {"quick": {"defines": ({"FMT": f, "ABSTRACT_PIECES": 1, "NW": 1, "CAP": 32, "R": 5, "VP_MEM_K": 40} if f != 1 else {"FMT": f, "ABSTRACT_PIECES": 1, "NW": 1, "CAP": 20, "R": 4, "LISTMASK": "0xfUL", "VP_MEM_K": 40}), "unwind": 36,
+                   "bounds": "1-word bitmaps (+tail), buffer length 0..32, <= 12 pieces of 0..5 characters each (contract hwloc_snprintf), symbolic canary"},
+         "thorough": {"defines": {"FMT": f, "ABSTRACT_PIECES": 1, "NW": 2, "CAP": 40, "R": 6, "VP_MEM_K": 48}, "unwind": 44,
                       "bounds": "2-word bitmaps (+tail), buffer length 0..40, pieces of 0..6 characters"}},
-        env=["vp_alloc.c"], stubs=["vsnprintf: abstract-piece contract stub (k-th piece needs an arbitrary r_k characters; conforming truncation)"])
+        env=["vp_alloc.c"], units=[], stubs=["hwloc_snprintf: contract stub (k-th piece needs an arbitrary r_k characters; conforming truncation) (on this platform hwloc_snprintf is the libc snprintf)"])
 TRUE = dict(env=["vp_alloc.c", "vp_libc.c"], stubs=["vsnprintf/strtoul: env/vp_libc.c models"])
-UW = {"hwloc_snprintf.0": 2, "vp_strto.0": 4, "vp_strto.1": 20}
+UW = {"vp_strto.0": 4, "vp_strto.1": 20}
+def bt(f, wmask, cap, extra=None, bounds=""):
+    d = {"FMT": f, "NW": 1, "CAP": cap, "VP_MEM_K": 48}
+    if wmask: d["WMASK"] = wmask
+    if extra: d.update(extra)
+    return {"defines": d, "unwind": cap + 4, "unwindset": UW, "bounds": bounds}
 for f in (2, 0, 1):
-    t = {"defines": {"FMT": f, "NW": 1, "CAP": 40}, "unwind": 44, "unwindset": UW, "bounds": "1-word bitmaps (+tail), true text lengths, buffer length 0..40"}
-    add("cursor_true_" + FN[f], "h_cursor_true", PRN[f] + ["hwloc_snprintf", "vsnprintf (model)"], {"thorough": t} if f != 2 else {"quick": t, "thorough": t}, **TRUE)
-    t = {"defines": {"FMT": f, "NW": 1, "CAP": 40}, "unwind": 44, "unwindset": UW, "bounds": "1-word bitmaps (+tail); list format bits below 8 per word"}
-    add("roundtrip_" + FN[f], "h_roundtrip", PRN[f] + SCN[f] + ["hwloc_snprintf", "vsnprintf, strtoul (models)"], {"quick": t, "thorough": dict(t, defines={"FMT": f, "NW": 2, "CAP": 60}, unwind=64)}, **TRUE)
-    add("asprintf_" + FN[f], "h_asprintf", PRN[f] + ASP[f], {"quick": t, "thorough": t}, **TRUE)
-    def pt(l, stable): 
-        d = {"FMT": f, "L": l, "CAP": 40}
+    bq = "1-word bitmaps whose explicit bits (or, for infinite sets, holes) lie in the low 16 bits, with or without the infinite tail"
+    bth = "every 1-word bitmap with or without the infinite tail" + ("; list format: bits below 8" if f == 1 else "")
+    add("cursor_true_" + FN[f], "h_cursor_true", PRN[f] + ["vsnprintf (model)"], {"thorough": bt(f, None, 40, bounds=bth + "; true text lengths; buffer length 0..40")}, core=False, **TRUE)
+    add("roundtrip_" + FN[f], "h_roundtrip", PRN[f] + SCN[f] + ["vsnprintf, strtoul (models)"], {"quick": bt(f, "0xffffUL", 24, bounds=bq), "thorough": bt(f, None, 40, bounds=bth)}, cost=50, **TRUE)
+    add("asprintf_" + FN[f], "h_asprintf", PRN[f] + ASP[f], {"quick": bt(f, "0xffffUL", 24, bounds=bq), "thorough": bt(f, None, 40, bounds=bth)}, cost=50, **TRUE)
+    def pt(l, stable):
+        d = {"FMT": f, "L": l, "CAP": 24, "VP_MEM_K": 48}
         if stable: d["STABLE"] = 1
-        return {"defines": d, "unwind": 44 if stable else 12, "unwindset": UW, "bounds": "every NUL-terminated string of <= %d arbitrary non-NUL bytes in a %d-byte object; destination pre-state arbitrary" % (l, l + 1)}
-    add("parse_" + FN[f], "h_parse", SCN[f] + ["strtoul (model)", "strchr", "strncmp"], {"quick": pt(5, False), "thorough": pt(7, False)}, checks="safety+", **TRUE)
-    add("parse_stable_" + FN[f], "h_parse", SCN[f] + PRN[f], {"quick": pt(3, True), "thorough": pt(4, True)}, **TRUE)
+        return {"defines": d, "unwind": 28 if stable else 12, "unwindset": UW, "bounds": "every NUL-terminated string of <= %d arbitrary non-NUL bytes in a %d-byte object; destination pre-state arbitrary" % (l, l + 1)}
+    add("parse_" + FN[f], "h_parse", SCN[f] + ["strtoul (model)", "strchr", "strncmp"], {"quick": pt(4, False), "thorough": pt(6, False)}, checks="safety+", cost=30, **TRUE)
+    add("parse_stable_" + FN[f], "h_parse", SCN[f] + PRN[f], {"quick": pt(2, True), "thorough": pt(3, True)}, cost=40, **TRUE)
 OUTSIDE = ["bitmaps with more than 2 explicit words", "texts longer than CAP", "locale effects", "allocation failure"]
